@@ -40,6 +40,11 @@ def strategy(tier):
         st.tuples(st.just("is_running"), i),
         st.tuples(st.just("process_iter"), st.integers(0, 8)),
         st.tuples(st.just("str"), i),
+        # is_running() while the kernel refuses one access with a transient
+        # error (out of file descriptors / memory, I/O error): no verdict may
+        # be latched from it
+        st.tuples(st.just("is_running_fault"), i, st.sampled_from(["EMFILE", "ENFILE", "ENOMEM", "EIO"]),
+                  st.integers(0, 3)),
         st.tuples(st.just("query"), i, st.sampled_from(["name", "as_dict", "ppid", "parent", "children"])),
     ] + history.extra_ops()
     return st.fixed_dictionaries(dict(
@@ -157,6 +162,33 @@ def run_case(case):
                     elif o.seen_not_running:
                         raise Violation("is_running-resurrected", f"pid {o.pid}")
                     sig.append("is_running")
+            elif kind == "is_running_fault":
+                o = w.pick_obj(op[1])
+                if o is not None:
+                    import errno as _errno
+                    k.arm([simk.Fault(op[3], "deny", o.pid, getattr(_errno, op[2]))])
+                    try:
+                        r = o.proc.is_running()
+                    except OSError as e:
+                        r = e       # the environment's failure comes through: fine
+                    except Exception as e:  # noqa: BLE001
+                        raise Violation("is_running-raises", f"{e!r} under a transient {op[2]}") from None
+                    finally:
+                        k.arm([])
+                    alive = w.alive(o)
+                    if not isinstance(r, OSError) and r != alive:
+                        raise Violation("is_running", f"pid {o.pid}: is_running() = {r} while one access failed "
+                                                      f"with {op[2]}; process in table = {alive}; history {case['ops']}")
+                    # afterwards, with the fault gone, the answer is the right one
+                    r2 = o.proc.is_running()
+                    if r2 != alive:
+                        raise Violation("is_running", f"pid {o.pid}: is_running() = {r2} after a transient {op[2]} "
+                                                      f"during an earlier call; process in table = {alive}; "
+                                                      f"history {case['ops']}")
+                    if not r2:
+                        o.seen_not_running = True
+                    sig.append("is_running")
+                    labels.add("is_running-under-transient-error")
             elif kind == "process_iter":
                 it = psutil.process_iter()
                 for _ in range(op[1]):
